@@ -295,10 +295,26 @@ def row_statements(R):
     ]
 
 
+def _materialise_composites(v):
+    """The cached composite object in ``__dict__`` is derived state (rebuilt on access
+    from its column attributes; Session.merge() drops it on purpose).  Rebuild it when
+    all of its columns are loaded so that snapshots compare values, not cache presence."""
+    import sqlalchemy as sa
+
+    try:
+        mapper = sa.inspect(v).mapper
+    except Exception:
+        return
+    for comp in mapper.composites:
+        if comp.key not in v.__dict__ and all(k in v.__dict__ for k in comp._attribute_keys):
+            getattr(v, comp.key)
+
+
 def norm_row(M, row):
     out = []
     for v in row:
         if hasattr(v, "_sa_instance_state"):
+            _materialise_composites(v)
             out.append(("entity", M.snapshot(M.graph_nodes(v))))
         else:
             out.append(v)
